@@ -9,6 +9,8 @@ CONSTANTS
  MaxSteps = 100000000
  MaxNow = 100000000
  MaxGen = 100000000
+ GenOrderedCompare = FALSE
+ Observers = {1,2}
 INVARIANTS TypeOK StrictObserveExact NoInterference NeverDropUncovered DropRemoves KeepKeeps FreshRestart UncoveredUntracked
 POSTCONDITION TraceAccepted
 CHECK_DEADLOCK FALSE
